@@ -4,8 +4,9 @@
 
 use super::{parse_sim, HGuard, SimCtx};
 use dropshot::{
-    endpoint, ApiDescription, Body, HttpError, MultipartBody, Path, Query,
-    RawRequest, RequestContext, StreamingBody, TypedBody, UntypedBody,
+    endpoint, ApiDescription, Body, HttpError, MultipartBody, PaginationParams,
+    Path, Query, RawRequest, RequestContext, StreamingBody, TypedBody,
+    UntypedBody, WhichPage,
 };
 use http_body_util::BodyExt;
 use futures::StreamExt;
@@ -317,6 +318,36 @@ async fn echo_narrow(
     r
 }
 
+#[derive(Deserialize, JsonSchema)]
+pub struct PageScan {
+    tag: Option<String>,
+}
+
+#[derive(Deserialize, serde::Serialize, JsonSchema)]
+pub struct PageSel {
+    n: u32,
+    s: String,
+}
+
+/// A paginated endpoint: the query string is either the scan parameters of a
+/// first page or an opaque page token carrying the page selector.
+#[endpoint { method = GET, path = "/page" }]
+async fn echo_page(
+    rqctx: RequestContext<SimCtx>,
+    q: Query<PaginationParams<PageScan, PageSel>>,
+) -> Result<Response<Body>, HttpError> {
+    let (nonce, g) = delay(&rqctx).await;
+    let p = q.into_inner();
+    let limit = rqctx.page_limit(&p).map(|l| l.get()).unwrap_or(0);
+    let args = match &p.page {
+        WhichPage::First(scan) => json!({"first": scan.tag, "limit": limit}),
+        WhichPage::Next(sel) => json!({"next": {"n": sel.n, "s": sel.s}, "limit": limit}),
+    };
+    let r = respond(nonce, args, ctx_json(&rqctx));
+    g.finish();
+    r
+}
+
 // One path served by different handlers in adjacent version ranges.
 #[endpoint { method = GET, path = "/v/thing", operation_id = "thing_v1", versions = .."2.0.0" }]
 async fn thing_v1(rqctx: RequestContext<SimCtx>) -> Result<Response<Body>, HttpError> {
@@ -348,6 +379,7 @@ pub fn register(api: &mut ApiDescription<SimCtx>, versioned: bool) {
     api.register(echo_raw).unwrap();
     api.register(echo_stream).unwrap();
     api.register(echo_rawreq).unwrap();
+    api.register(echo_page).unwrap();
     api.register(echo_mp).unwrap();
     api.register(echo_wild).unwrap();
     api.register(echo_narrow).unwrap();
